@@ -9,6 +9,7 @@ import Driver.Comp
 import Driver.Http
 import Driver.Crash
 import Driver.Cluster
+import Driver.Leak
 
 /-! One request per line on stdin, one response per line on stdout.  Unknown or malformed
 requests answer `bad-op` (never a default value). -/
@@ -31,6 +32,7 @@ def dispatch (ws : List String) : String :=
   | "equal" :: _ | "c13equalholds" :: _ | "member" :: _ | "c11memberholds" :: _ | "iscancel" :: _ | "plan" :: _
   | "planany" :: _ | "c16planholds" :: _ | "known" :: _ => (Driver.Pure.handle ws).getD "bad-op"
   | "raceprog" :: _ => "completed"
+  | "c18holds" :: _ => (Driver.Leak.handle ws).getD "bad-op"
   | "lcaccept" :: _ | "c07holds" :: _ => (Driver.Lifecycle.handle ws).getD "bad-op"
   | _ => "bad-op"
 
